@@ -48,6 +48,7 @@ type Res struct {
 	InitLabels []string `json:"init_labels"`
 	FuncLabels []string `json:"func_labels"`
 	InitAnon   []string `json:"init_anon"`
+	MainLabel  string   `json:"main_label"`
 	Ms         int64    `json:"ms"`
 	ssa        string
 }
@@ -80,6 +81,7 @@ var (
 	reInst     = regexp.MustCompile(`#\d+`)
 	reAnon     = regexp.MustCompile(`%_\{(\d+),(\d+)\}`)
 	reFuncLbl  = regexp.MustCompile(`^(main|F[A-Z])#\d+$`)
+	reMainLbl  = regexp.MustCompile(`^main#\d+$`)
 	reAnonInit = regexp.MustCompile(`%_\{0,(\d+)\}`)
 )
 
@@ -196,6 +198,9 @@ func analyseSSA(r *Res, text string) {
 		} else if reFuncLbl.MatchString(s.label) {
 			r.FuncLabels = append(r.FuncLabels, s.label)
 		}
+		if r.MainLabel == "" && reMainLbl.MatchString(s.label) {
+			r.MainLabel = s.label
+		}
 	}
 }
 
@@ -255,7 +260,7 @@ func compileFresh(j *Job) *Res {
 // relation classifies how two outputs of the same program differ.
 //
 //	what : "" (equal) | "ssa" | "circuit" | "circuit+ssa" | "error"
-//	class: equal | inst-labels | init-missing | init-order | other
+//	class: equal | inst-labels | init-missing | init-order | other | other-main-label | other-main-init
 func relation(a, b *Res) (what, class string) {
 	if a.Err != "" || b.Err != "" {
 		if a.Err == b.Err {
@@ -277,6 +282,23 @@ func relation(a, b *Res) (what, class string) {
 	}
 	if !ssa {
 		return what, "other"
+	}
+	// The known history defects concern IMPORTED packages only: the main
+	// package is re-created by every compilation, so its initialiser block
+	// and the instance number of main itself must never change.
+	if a.MainLabel != b.MainLabel {
+		return what, "other-main-label"
+	}
+	hasMain := func(r *Res) bool {
+		for _, l := range r.InitLabels {
+			if l == ".main" {
+				return true
+			}
+		}
+		return false
+	}
+	if hasMain(a) != hasMain(b) {
+		return what, "other-main-init"
 	}
 	if a.SSANoInst == b.SSANoInst {
 		return what, "inst-labels"
